@@ -155,9 +155,10 @@ impl Project {
         format!("D s{}", s.id)
     }
     pub fn rsp_content(&self, s: &Step) -> Option<String> {
+        // the length varies non-monotonically with the version (a rewrite can be shorter)
         s.rsp
             .as_ref()
-            .map(|r| format!("RSP s{} r{} {}", s.id, r.ver, s.exp.join(" ")))
+            .map(|r| format!("RSP s{} r{}{} {}", s.id, r.ver, "+".repeat([4usize, 0, 7, 1, 3][(r.ver % 5) as usize]), s.exp.join(" ")))
     }
     pub fn depfile_path(&self, s: &Step) -> Option<String> {
         if s.depmode == 1 {
@@ -631,12 +632,7 @@ impl Project {
                 }
                 if let Some(rsp) = &s.rsp {
                     tgt.push(format!("rspfile = {}", esc_val(&rsp.path)));
-                    tgt.push(format!(
-                        "rspfile_content = RSP s{} r{} {}",
-                        s.id,
-                        rsp.ver,
-                        esc_val(&s.exp.join(" "))
-                    ));
+                    tgt.push(format!("rspfile_content = {}", esc_val(&self.rsp_content(s).unwrap())));
                 }
             } else {
                 binds.push(format!("id = s{}", s.id));
@@ -647,7 +643,7 @@ impl Project {
                 if s.rsp.is_some() {
                     let rsp = s.rsp.as_ref().unwrap();
                     binds.push(format!("rsp = {}", esc_val(&rsp.path)));
-                    binds.push(format!("rver = r{}", rsp.ver));
+                    binds.push(format!("rver = r{}{}", rsp.ver, "+".repeat([4usize, 0, 7, 1, 3][(rsp.ver % 5) as usize])));
                     if s.depmode == 1 {
                         binds.push(format!("depfile = {}", esc_val(&self.depfile_path(s).unwrap())));
                     }
